@@ -12,6 +12,7 @@ import (
 	"fmt"
 	"io"
 	"math"
+	"sort"
 	"strconv"
 	"sync/atomic"
 	"time"
@@ -369,6 +370,13 @@ func (c *client) SendBatch(ctx context.Context, batch []hrpc.Call) (
 		} else {
 			sp.AddEvent("retry")
 		}
+		// The calls to retry were collected per region client. Put them
+		// back in the order of the original batch: calls that went to
+		// different region clients in this round may be for the same
+		// region in the next one, where they must be sent in batch order.
+		sort.SliceStable(retries, func(i, j int) bool {
+			return rpcToRes[retries[i]] < rpcToRes[retries[j]]
+		})
 		// Set state for next loop iteration
 		batch = retries
 		retries = retries[:0]
